@@ -271,4 +271,6 @@ HasTransient == IF D.k = "struct" THEN \E i \in 1..Len(D.fields) : D.fields[i].t
 EmitCases ==
   PrintT(<<"REPLAY", ToJson([ty |-> T, hash |-> FALSE, transient |-> HasTransient,
                              cases |-> {Case(v) : v \in Vs}, xcases |-> XCases, raw |-> RawCases])>>)
+EmitMeta == PrintT(<<"META", ToJson([followers |-> FollowerSuffixes])>>)
+ASSUME EmitMeta
 =============================================================================
